@@ -166,6 +166,7 @@ def sig_of(text, why):
 
 
 def run(ctx):
+    C.config_matrix(ctx["report"], ctx["rundir"], "C06", ["1+1", "1/0", "10^400/3", "(10^400/3) m", "x = 2^2000/7; x", "171!*171!/173", "5 Hz + 2 s", "3 ohm < 2 S", "sin(1, zz: 2)", "nosuchfn(1)", "\"abc", "1 +", "5 m to s", "{1, 2 m}", "#2024-02-30#", "10^5000", "(1/3) m", "[1/3, 0.5]", "{10^400/7}"])
     rep, tier, seed = ctx["report"], ctx["tier"], ctx["seed"]
     d = json.load(open(C.BUILD + "/dump.json"))
     rng = random.Random(seed * 65537 + 6)
